@@ -165,7 +165,7 @@ void pqT(Case& c, bool rangeInit, bool removeOnEmpty, unsigned keyRange, unsigne
       }
       checkQ(c, *qp, m, KIND, tracked);
     }
-    c.lastOp = "destructor";
+    c.phase("destructor");
   }
   c.lifetimesOk(tracked ? 0 : -1);
 }
